@@ -607,3 +607,100 @@ def shrink_shell_json(sj):
         t["coeffs"] = [["1" for _ in row] for row in sj["coeffs"]]
         out.append(t)
     return out
+
+
+# ----------------------------------------------------------------------------------------------
+# in-Coq cross-check of the extracted runner (same commands evaluated by vm_compute)
+# ----------------------------------------------------------------------------------------------
+def _sx_to_coq(obj):
+    """nested python (from parse_sx, or ints/Fractions) -> Coq term of type sx"""
+    if isinstance(obj, list):
+        return "SL [" + "; ".join(_sx_to_coq(o) for o in obj) + "]"
+    if isinstance(obj, Fraction):
+        return "SQ (%d) %d" % (obj.numerator, obj.denominator)
+    raise TypeError(obj)
+
+
+def _raw_to_coq(s):
+    """driver wire text -> Coq term of type sx, keeping SZ/SQ distinction as on the wire"""
+    out = []
+    pos = 0
+    n = len(s)
+    first = [True]
+
+    def sep():
+        if not first[-1]:
+            out.append("; ")
+        first[-1] = False
+
+    while pos < n:
+        ch = s[pos]
+        if ch == "(":
+            sep()
+            out.append("SL [")
+            first.append(True)
+            pos += 1
+        elif ch == ")":
+            out.append("]")
+            first.pop()
+            pos += 1
+        elif ch in " \n\t":
+            pos += 1
+        else:
+            st = pos
+            while pos < n and s[pos] not in " ()\n\t":
+                pos += 1
+            t = s[st:pos]
+            sep()
+            if "/" in t:
+                a, b = t.split("/")
+                out.append("SQ (%s) %s" % (a, b))
+            else:
+                out.append("SZ (%s)" % t)
+    return "".join(out)
+
+
+def coq_crosscheck(pid, cmds, timeout=600):
+    """Evaluate `cmds` with the extracted driver and inside Coq (vm_compute) with the same oracle table;
+    returns (n_checked, list of mismatching commands)."""
+    if not cmds:
+        return 0, []
+    model = ModelProc()
+    model.log = []
+    results = [model.call_raw(c).strip() for c in cmds]
+    log = list(model.log)
+    pi = model.pi
+    model.close()
+    fcode = {"sqrt": 1, "exp": 2, "ln": 3, "boys": 4}
+    rows = []
+    for fn, extra, arg, val in log:
+        rows.append("(%d, %d, (%d, %d), (%d, %d))" % (fcode[fn], int(extra) if extra is not None else 0,
+                                                        arg.numerator, arg.denominator, val.numerator, val.denominator))
+    lines = [
+        "From Coq Require Import ZArith QArith Qcanon List. Import ListNotations.",
+        "From GB Require Import Base.Field Extract.Sx Extract.Run.",
+        "Local Open Scope Z_scope.",
+        "Definition tbl : list (Z * Z * (Z * Z) * (Z * Z)) := [%s]." % ";\n ".join(rows),
+        "Definition lk (f e : Z) (x : Qc) : Qc :=",
+        "  match find (fun '(f', e', (n, d), _) => Z.eqb f f' && Z.eqb e e' && Z.eqb n (qc_num x) && Z.eqb d (Zpos (qc_den x))) tbl with",
+        "  | Some (_, _, _, (vn, vd)) => qc_of vn (Z.to_pos vd) | None => qc_of 0 1 end.",
+        "Definition KK := QcK false (qc_of (%d) %d) (lk 1 0) (lk 2 0) (lk 3 0) (fun m => lk 4 (Z.of_nat m))." % (
+            pi.numerator, pi.denominator),
+    ]
+    for i, (c, r) in enumerate(zip(cmds, results)):
+        lines.append("Definition cmd%d : sx := %s." % (i, _raw_to_coq(c)))
+        lines.append("Definition res%d : sx := %s." % (i, _raw_to_coq(r)))
+        lines.append("Eval vm_compute in (sx_eqb (run KK cmd%d) res%d)." % (i, i))
+    path = os.path.join(WORK, "xcheck_%s.v" % pid)
+    with open(path, "w") as f:
+        f.write("\n".join(lines) + "\n")
+    p = subprocess.run(["timeout", str(timeout), "coqc", "-Q", os.path.join(VERIF, "coq"), "GB", path],
+                       capture_output=True, text=True, cwd=WORK)
+    verdicts = [ln.strip() for ln in p.stdout.splitlines() if ln.strip().startswith("= ")]
+    bad = []
+    if p.returncode != 0 or len(verdicts) != len(cmds):
+        return 0, ["coqc failed: " + (p.stderr or p.stdout)[-800:]]
+    for c, v in zip(cmds, verdicts):
+        if not v.startswith("= true"):
+            bad.append(c)
+    return len(cmds), bad
